@@ -146,7 +146,7 @@ def run(tier, seed, replay=None):
     for tid, v in verdicts.items():
         t = byid[tid]
         for rec in v["rejects"] + ([v["final"]] if v["final"]["clause"] else []) + v["monitors"]:
-            if rec.get("flags") or rec["clause"].startswith("RoundAfter:") or rec["status"] == "overelected":
+            if EL.live_flags(t["cfg"]["rule"], rec.get("flags", [])) or rec["clause"].startswith("RoundAfter:") or rec["status"] == "overelected":
                 continue       # states covered by recorded C01 findings (threshold 0, over-election, ...)
             if rec["clause"] in ("Error:ValueError",) and t["cfg"]["tb"] == "none":
                 continue
